@@ -119,3 +119,27 @@ def response_after_rejection(c, n2, sign_header):
     r2 = c.call(client._process_response, resp, ph2, _request.Response, off)
     c.check(seq_eq(r2.stub_data, a["plain"]), "second reply accepted only if it carries sealed plaintext")
     return True
+
+
+@harness(P, per_job=True, params=lambda tier: [dict(L=L, vt=v, n=n) for L in ([0, 1, 16] if tier == "quick" else [0, 1, 3, 16, 17]) for v in (False, True) for n in ([32] if tier == "quick" else [24, 32, 48])],
+         raises=(Exception,), max_steps=600000,
+         bounds="the request side and the reply side of one exchange together: a request with a stub of listed length (incl. the empty stub) with / without verification trailer on an "
+         "authenticated client must go through the security context, and then NO reply of the listed length (fully symbolic octets, packet type RESPONSE, frag_len = length) may be "
+         "accepted, because the peer sealed nothing", outside="other lengths", must_reach=("the request was sealed",))
+def request_then_any_reply(c, L, vt, n):
+    from dpapi_ng import _client as top
+
+    ctx = secctx.IdealContext(c, SIG)
+    auth = secctx.provider(ctx)
+    client = _client(c, auth, True)
+    stub = c.bytes("req_stub", L)
+    req, off = c.call(client._create_request, 0, 0, stub, verification_trailer=top._VERIFICATION_TRAILER if vt else None)
+    wire = c.call(client._prepare_pdu, req, off)
+    c.check(off is not None and req.sec_trailer is not None and req.header.auth_len == SIG and len(ctx.wrap_calls) == 1 and ctx.wrap_calls[0]["encrypt"] is True, "the request was sealed")
+    adv = c.bytes("adv", n)
+    c.assume(all_of([adv[2] == 2, adv[8] == n & 0xFF, adv[9] == n >> 8]))
+    resp = V.SymByteArray(list(V.seq_items(adv))) if c.symbolic else bytearray(adv)
+    ph = c.call(_pdu.PDUHeader.unpack, adv[:16])
+    r = c.call(client._process_response, resp, ph, _request.Response, off)
+    c.check(False, "a reply was accepted although the peer sealed nothing")
+    return True
